@@ -247,7 +247,9 @@ def dict_branch(ctx):
         ctx.ob(forms == sorted([inner.target.id, inner.target.id + '.key']), u,
                'the key pattern is the spec key, unwrapped when Required: %s' % forms)
         disc = [c for c in calls_in(u) if isinstance(c.func, ast.Attribute) and c.func.attr == 'discard']
-        ok = len(disc) == 1 and is_name(disc[0].args[0], inner.target.id) and cfg.dominates(vn, cfg.node_containing(disc[0]))
+        dn_ = cfg.node_containing(disc[0]) if disc else None
+        ok = len(disc) == 1 and is_name(disc[0].args[0], inner.target.id) and cfg.dominates(kn, dn_) \
+            and cfg.find_path(kn, {dn_}, labels=lambda l: l == 'exc') is None and cfg.dominates(dn_, bn)
         ctx.ob(ok, u, 'a matched spec key is no longer required: %s' % [norm(d) for d in disc])
     # required: == constants not Optional, or Required(...)
     req = [n for n in u.own_nodes() if isinstance(n, ast.SetComp)]
